@@ -299,6 +299,83 @@ namespace vd
         return out;
     }
 
+    // ---- C20 controlled: two VMs on two threads, interleaved at instruction boundaries (do.poll hook) ----
+    struct isostate
+    {
+        std::string p, q; sched sc; std::string out[2];
+    };
+    static std::string logs_of(int vmid)
+    {
+        std::string s;
+        for (auto& r : g_log) if (r.vm == vmid) s += std::to_string(r.level) + ":" + r.msg + "\n";
+        return s;
+    }
+    static void iso_body(isostate* st, int tid)
+    {
+        st->sc.thread_start(tid);
+        vmconf c; c.ops = "full";
+        auto v = make_vm(100 + tid, c);
+        auto& rt = *v->rt;
+        fileio::pathinfo pi(std::string("p.sqf"), std::string("p.sqf"));
+        const std::string& text = tid == 0 ? st->p : st->q;
+        S->point("iso.created");
+        auto pp = rt.parser_preprocessor().preprocess(rt, text, pi);
+        S->point("iso.preprocessed");
+        if (pp.has_value())
+        {
+            auto set = rt.parser_sqf().parse(rt, *pp, pi);
+            if (set.has_value())
+            {
+                auto ctx = rt.context_create().lock();
+                ctx->push_frame({ rt.default_value_scope(), *set });
+                auto r = rt.execute(runtime::action::start);
+                st->out[tid] = "r=" + std::to_string((int)r);
+            }
+        }
+        v.reset();
+        st->sc.thread_end();
+    }
+    struct iso_explorer
+    {
+        std::string p, q, expect; int bound; long max_exec; long execs = 0, points = 0; bool capped = false;
+        std::set<std::string> outcomes; js::val violations = js::val::array();
+        void explore(std::vector<int> prefix)
+        {
+            if (execs >= max_exec) { capped = true; return; }
+            auto* st = new isostate(); st->p = p; st->q = q;
+            g_log.clear();
+            st->sc.reset(2, prefix); S = &st->sc;
+            std::thread t0(iso_body, st, 0), t1(iso_body, st, 1);
+            bool fine = st->sc.go();
+            if (!fine) { t0.detach(); t1.detach(); S = nullptr; auto v = js::val::object(); v.set("kind", "deadlock-or-livelock"); v.set("what", "two independent VMs do not finish"); violations.push(v); capped = true; return; }
+            t0.join(); t1.join(); S = nullptr;
+            auto pts = st->sc.points; bool div = st->sc.divergence;
+            std::string got = st->out[0] + "\n" + logs_of(100);
+            delete st;
+            execs++; points += (long)pts.size();
+            outcomes.insert(got);
+            if (div) { auto v = js::val::object(); v.set("kind", "replay-divergence"); v.set("what", "schedule prefix could not be replayed"); if (violations.size() < 5) violations.push(v); return; }
+            if (got != expect && violations.size() < 5)
+            {
+                auto v = js::val::object(); v.set("kind", "output-depends-on-neighbour");
+                v.set("what", "output of P beside Q: " + got.substr(0, 300) + " ; alone: " + expect.substr(0, 300));
+                std::string sch; for (auto& pt : pts) sch += std::to_string(pt.chosen); v.set("schedule", sch);
+                violations.push(v);
+            }
+            std::vector<int> pre(pts.size() + 1, 0);
+            for (size_t i = 0; i < pts.size(); i++) { bool preempt = pts[i].prev_enabled && !pts[i].forced && pts[i].chosen != 0; pre[i + 1] = pre[i] + (preempt ? 1 : 0); }
+            for (size_t i = prefix.size(); i < pts.size(); i++)
+                for (int alt = 1; alt < (int)pts[i].enabled.size(); alt++)
+                {
+                    bool is_pre = pts[i].prev_enabled && !pts[i].forced;
+                    if (pre[i] + (is_pre ? 1 : 0) > bound) continue;
+                    std::vector<int> np; for (size_t j = 0; j < i; j++) np.push_back(pts[j].chosen); np.push_back(alt);
+                    explore(np);
+                    if (capped) return;
+                }
+        }
+    };
+
     js::val mode_mt(const js::val& req)
     {
         std::string what = req["what"].str();
@@ -349,6 +426,25 @@ namespace vd
             }
             verif::g_hooks.on_event = nullptr;
             res.set("runs", rep); res.set("unusable_afterwards", bad);
+            return res;
+        }
+        if (what == "isolation")
+        {
+            verif::g_hooks.point = hook_point; verif::g_hooks.on_event = nullptr; verif::g_hooks.slice = 0;
+            iso_explorer ex; ex.p = req["p"].str(); ex.q = req["q"].str(); ex.bound = (int)req["bound"].i64(1); ex.max_exec = req["max_executions"].i64(20000);
+            // reference: P alone (Q = empty program) under the same harness
+            {
+                auto* st = new isostate(); st->p = ex.p; st->q = "";
+                g_log.clear(); st->sc.reset(2, {}); S = &st->sc;
+                std::thread t0(iso_body, st, 0), t1(iso_body, st, 1);
+                st->sc.go(); t0.join(); t1.join(); S = nullptr;
+                ex.expect = st->out[0] + "\n" + logs_of(100);
+                delete st;
+            }
+            ex.explore({});
+            verif::g_hooks.point = nullptr;
+            res.set("executions", ex.execs); res.set("points", ex.points); res.set("distinct_outcomes", (long long)ex.outcomes.size());
+            res.set("capped", ex.capped); res.set("violations", ex.violations); res.set("alone", ex.expect.substr(0, 400));
             return res;
         }
         if (what == "isolation-free")
